@@ -45,7 +45,7 @@ macro_rules! encodings_harness {
 // the same query with and without certificate, then the other argument, on ONE stable solver object
 indep_harness!(c06_q_st_dc_cert_nocert_g6, n=2, words=1, unwind=6, Sem::ST, Enc::Default, Pres::Plain, code=6, script=[(Kind::DC, 0, true), (Kind::DC, 0, false)]);
 indep_harness!(c06_q_st_dc_then_ds_g2, n=2, words=1, unwind=6, Sem::ST, Enc::Default, Pres::Plain, code=2, script=[(Kind::DC, 1, false), (Kind::DS, 0, true)]);
-indep_harness!(c06_q_co_dc_ab_then_a_g14, n=2, words=1, unwind=7, Sem::CO, Enc::AuxCo, Pres::Plain, code=14, script=[(Kind::DC, 0, true), (Kind::DC, 1, false)]);
+indep_harness!(c06_x_co_dc_ab_then_a_g14, n=2, words=1, unwind=7, Sem::CO, Enc::AuxCo, Pres::Plain, code=14, script=[(Kind::DC, 0, true), (Kind::DC, 1, false)]);
 indep_harness!(c06_q_gr_repeat_g2, n=2, words=1, unwind=6, Sem::GR, Enc::Default, Pres::Plain, code=2, script=[(Kind::DS, 1, true), (Kind::DC, 1, false), (Kind::DS, 1, false)]);
 encodings_harness!(c06_q_encodings_g6_a, n=2, words=1, unwind=7, code=6, arg=0, cert=false);
 encodings_harness!(c06_q_encodings_g14_b, n=2, words=1, unwind=7, code=14, arg=1, cert=true);
